@@ -23,7 +23,7 @@ theorem discipline_sound (T : Table) (pol : Nat → Option Discipline) (allowed 
   obtain ⟨haT, ha⟩ := ex.typed i t a o hi'
   obtain ⟨hbT, hb⟩ := ex.typed j u b o hj'
   simp only [disciplineOk, Bool.and_eq_true] at h
-  obtain ⟨⟨_, hg⟩, hall⟩ := h
+  obtain ⟨⟨⟨_, hg⟩, hstw⟩, hall⟩ := h
   simp only [List.all_eq_true, List.mem_range] at hall
   have hma : a ∈ accsAt T a.loc := (mem_accsAt hg haT rfl).1
   have hmb : b ∈ accsAt T a.loc := (mem_accsAt hg hbT hloc.symm).1
@@ -90,9 +90,28 @@ theorem discipline_sound (T : Table) (pol : Nat → Option Discipline) (allowed 
         · exact hn₁ h
         · exact hn₂ h
     | message =>
-      rcases ex.msg i j t u a b o hi' hj' hloc hpol htu with h | h
-      · exact hn₁ h
-      · exact hn₂ h
+      -- a message location is not on the sent-then-written list
+      have notListed : a.loc ∉ T.sentThenWritten := by
+        intro hin
+        simp only [stwOk, List.all_eq_true] at hstw
+        have := hstw a.loc hin
+        rw [hpol] at this
+        cases this
+      have wBefore : ∀ (i k : Nat) (t : Tid) (x : Access), At ex.tr i t (.acc x o) → x.loc = a.loc →
+          At ex.tr k t (.send o) → (x.write = false → i < k) → i < k := by
+        intro i k t x hx hl hk hrd
+        cases hwx : x.write with
+        | false => exact hrd hwx
+        | true =>
+          rcases ex.sendSem i k t x o hx hwx hk with h | h
+          · rw [hl] at h; exact absurd h notListed
+          · exact h
+      rcases ex.msgSem i j t u a b o hi' hj' hloc hpol htu hw with
+        ⟨k, k', hk, hk', hlt, hkj, hrd⟩ | ⟨k, k', hk, hk', hlt, hki, hrd⟩
+      · have hik := wBefore i k t a hi' rfl hk hrd
+        exact hn₁ (.trans (.po hi' hk hik) (.trans (.chan hk hk' hlt) (.po hk' hj' hkj)))
+      · have hjk := wBefore j k u b hj' hloc.symm hk hrd
+        exact hn₂ (.trans (.po hj' hk hjk) (.trans (.chan hk hk' hlt) (.po hk' hi' hki)))
 
 
 /-- **The obligation a code change breaks.**  The access table regenerated from the working tree
@@ -136,6 +155,9 @@ theorem racy_races : Race racyTrace 0 1 := by
         rintro ⟨rfl, rfl⟩
         cases (At.inj h₁ a0).2
         cases hm
+      | chan h₁ _ _ =>
+        rintro ⟨rfl, rfl⟩
+        cases (At.inj h₁ a0).2
       | trans h₁ h₂ _ _ =>
         rintro ⟨rfl, rfl⟩
         have := hb_lt h₁
@@ -151,22 +173,36 @@ policy `handoff`) while the play runs and main reads it while the play runs:
 root 0 = main, root 1 = worker forked by main and joined; main's read is `mid` -/
 def badTable : Table :=
   ⟨[⟨[], false, true, false, [], []⟩, ⟨[0], false, true, true, [], []⟩],
-   [[⟨1, 0, true, false, [], true, []⟩, ⟨0, 0, false, false, [], false, [(1, .mid)]⟩]]⟩
+   [[⟨1, 0, true, false, [], true, []⟩, ⟨0, 0, false, false, [], false, [(1, .mid)]⟩]], []⟩
 
 example : disciplineOk badTable (fun _ => some .handoff) [] = false := by decide
 
 /-- … and accepts it once main reads only after the join -/
 def goodTable : Table :=
   ⟨[⟨[], false, true, false, [], []⟩, ⟨[0], false, true, true, [], []⟩],
-   [[⟨1, 0, true, false, [], true, []⟩, ⟨0, 0, false, false, [], false, [(1, .post)]⟩]]⟩
+   [[⟨1, 0, true, false, [], true, []⟩, ⟨0, 0, false, false, [], false, [(1, .post)]⟩]], []⟩
 
 example : disciplineOk goodTable (fun _ => some .handoff) [] = true := by decide
 
 /-- a shared written location without a policy entry is rejected -/
 example : disciplineOk goodTable (fun _ => none) [] = false := by decide
 
+/-- a `message` location that some function writes after sending the object is rejected … -/
+def stwTable : Table :=
+  ⟨[⟨[], false, true, false, [], []⟩, ⟨[0], false, true, true, [], []⟩],
+   [[⟨1, 0, true, false, [], true, []⟩, ⟨0, 0, false, false, [], false, [(1, .mid)]⟩]], [0]⟩
+
+example : disciplineOk stwTable (fun _ => some .message) [] = false := by decide
+
+/-- … accepted without that row, or when the location is protected by a lock that both sides hold -/
+example : disciplineOk { stwTable with sentThenWritten := [] } (fun _ => some .message) [] = true := by decide
+
+example : disciplineOk
+    ⟨stwTable.roots, [[⟨1, 0, true, false, [7], true, []⟩, ⟨0, 0, false, false, [7], false, [(1, .mid)]⟩]], [0]⟩
+    (fun _ => some (.locked 7)) [] = true := by decide
+
 /-- a join-skipping exit that is not on the allowed list is rejected -/
-example : disciplineOk ⟨[⟨[], false, true, false, [], ["f: return"]⟩], []⟩ (fun _ => none) [] = false := by decide
+example : disciplineOk ⟨[⟨[], false, true, false, [], ["f: return"]⟩], [], []⟩ (fun _ => none) [] = false := by decide
 
 
 /-! `Exec` is inhabited (the hypotheses of `discipline_sound` are not contradictory): main forks a
@@ -263,7 +299,10 @@ def demoExec : Exec goodTable demoPol where
   own := by
     intro i j t u a b o owners _ _ _ hp
     cases hp
-  msg := by
+  sendSem := by
+    intro i k t a o _ _ hk
+    rcases demo_cases hk with ⟨_, _, h⟩ | ⟨_, _, h⟩ | ⟨_, _, h⟩ | ⟨_, _, h⟩ | ⟨_, _, h⟩ <;> cases h
+  msgSem := by
     intro i j t u a b o _ _ _ hp
     cases hp
 
@@ -271,5 +310,97 @@ def demoExec : Exec goodTable demoPol where
 example : ∀ i j, ¬ Race demoExec.tr i j :=
   discipline_sound goodTable demoPol [] (by decide) demoExec
 end demo
+
+/-! … and so is an execution with a channel hand-over: main writes a `message` object, sends it, the
+worker receives it and reads it. -/
+section demoMsg
+def mW : Access := ⟨0, 0, true, false, [], false, [(1, .mid)]⟩
+def mR : Access := ⟨1, 0, false, false, [], false, []⟩
+def msgTable : Table :=
+  ⟨[⟨[], false, true, false, [], []⟩, ⟨[0], false, true, false, [], []⟩], [[mW, mR]], []⟩
+def msgTrace : Trace := [⟨0, .fork 1⟩, ⟨0, .acc mW 0⟩, ⟨0, .send 0⟩, ⟨1, .recv 0⟩, ⟨1, .acc mR 0⟩]
+def msgPol : Nat → Option Discipline := fun _ => some .message
+
+private theorem msg_cases {i : Nat} {t : Tid} {a : Act} (h : At msgTrace i t a) :
+    (i = 0 ∧ t = 0 ∧ a = .fork 1) ∨ (i = 1 ∧ t = 0 ∧ a = .acc mW 0) ∨ (i = 2 ∧ t = 0 ∧ a = .send 0) ∨
+    (i = 3 ∧ t = 1 ∧ a = .recv 0) ∨ (i = 4 ∧ t = 1 ∧ a = .acc mR 0) := by
+  unfold At msgTrace at h
+  rcases i with _ | _ | _ | _ | _ | i <;> simp at h <;> obtain ⟨rfl, rfl⟩ := h <;> simp
+
+def msgExec : Exec msgTable msgPol where
+  tr := msgTrace
+  rootOf := demoRoot
+  par := demoPar
+  typed := by
+    intro i t a o h
+    rcases msg_cases h with ⟨_, ht, h'⟩ | ⟨_, ht, h'⟩ | ⟨_, ht, h'⟩ | ⟨_, ht, h'⟩ | ⟨_, ht, h'⟩ <;>
+      cases h' <;> subst ht <;> decide
+  parTyped := by
+    intro c t h
+    obtain ⟨rfl, rfl⟩ := demo_par h
+    decide
+  hasParent := by
+    intro u _ hr
+    refine ⟨0, ?_⟩
+    unfold demoRoot at hr
+    unfold demoPar
+    split at hr
+    · next h => simp [h]
+    · exact absurd rfl hr
+  mainUnique := by
+    rintro t u ⟨i, a, hi⟩ ⟨j, b, hj⟩ ht hu
+    rcases msg_cases hi with ⟨_, rfl, _⟩ | ⟨_, rfl, _⟩ | ⟨_, rfl, _⟩ | ⟨_, rfl, _⟩ | ⟨_, rfl, _⟩ <;>
+      rcases msg_cases hj with ⟨_, rfl, _⟩ | ⟨_, rfl, _⟩ | ⟨_, rfl, _⟩ | ⟨_, rfl, _⟩ | ⟨_, rfl, _⟩ <;>
+      first | rfl | exact absurd ht (by decide) | exact absurd hu (by decide)
+  onceSem := by
+    intro c₁ c₂ t R h₁ h₂ _ _ _ _
+    rw [(demo_par h₁).1, (demo_par h₂).1]
+  forkExists := by
+    intro c t h
+    obtain ⟨rfl, rfl⟩ := demo_par h
+    exact ⟨0, rfl⟩
+  forkFirst := by
+    intro k t c j a hk hj
+    rcases msg_cases hk with ⟨rfl, rfl, h⟩ | ⟨_, _, h⟩ | ⟨_, _, h⟩ | ⟨_, _, h⟩ | ⟨_, _, h⟩ <;> cases h
+    rcases msg_cases hj with ⟨_, h, _⟩ | ⟨_, h, _⟩ | ⟨_, h, _⟩ | ⟨rfl, _, _⟩ | ⟨rfl, _, _⟩ <;>
+      first | omega | cases h
+  relSem := by
+    intro i t a o c h hp
+    obtain ⟨rfl, rfl⟩ := demo_par hp
+    rcases msg_cases h with ⟨_, _, h'⟩ | ⟨_, _, h'⟩ | ⟨_, _, h'⟩ | ⟨_, _, h'⟩ | ⟨_, ht, _⟩ <;>
+      first | cases ht | cases h'
+    trivial
+  joinObs := by
+    intro k t c h
+    rcases msg_cases h with ⟨_, _, h'⟩ | ⟨_, _, h'⟩ | ⟨_, _, h'⟩ | ⟨_, _, h'⟩ | ⟨_, _, h'⟩ <;> cases h'
+  preDoneSem := by
+    intro i c a o d _ _ hd
+    rcases msg_cases hd with ⟨_, _, h'⟩ | ⟨_, _, h'⟩ | ⟨_, _, h'⟩ | ⟨_, _, h'⟩ | ⟨_, _, h'⟩ <;> cases h'
+  jbdSem := by
+    intro u p R d _ _ _ _ hd
+    rcases msg_cases hd with ⟨_, _, h'⟩ | ⟨_, _, h'⟩ | ⟨_, _, h'⟩ | ⟨_, _, h'⟩ | ⟨_, _, h'⟩ <;> cases h'
+  seqSem := by
+    intro c₁ c₂ t R hne h₁ h₂
+    exact absurd ((demo_par h₁).1.trans (demo_par h₂).1.symm) hne
+  own := by
+    intro i j t u a b o owners _ _ _ hp
+    cases hp
+  sendSem := by
+    intro i k t a o hi _ hk
+    rcases msg_cases hk with ⟨_, _, h⟩ | ⟨_, _, h⟩ | ⟨rfl, rfl, _⟩ | ⟨_, _, h⟩ | ⟨_, _, h⟩ <;> first | cases h | skip
+    rcases msg_cases hi with ⟨_, _, h⟩ | ⟨rfl, _, _⟩ | ⟨_, _, h⟩ | ⟨_, _, h⟩ | ⟨_, ht, _⟩ <;>
+      first | cases h | cases ht | exact Or.inr (by omega)
+  msgSem := by
+    intro i j t u a b o hi hj _ _ htu _
+    rcases msg_cases hi with ⟨_, _, h⟩ | ⟨rfl, rfl, h⟩ | ⟨_, _, h⟩ | ⟨_, _, h⟩ | ⟨rfl, rfl, h⟩ <;> cases h <;>
+      rcases msg_cases hj with ⟨_, _, h⟩ | ⟨rfl, rfl, h⟩ | ⟨_, _, h⟩ | ⟨_, _, h⟩ | ⟨rfl, rfl, h⟩ <;> cases h
+    · exact absurd rfl htu
+    · exact Or.inl ⟨2, 3, rfl, rfl, by omega, by omega, by intro h; cases h⟩
+    · exact Or.inr ⟨2, 3, rfl, rfl, by omega, by omega, by intro h; cases h⟩
+    · exact absurd rfl htu
+
+example : ∀ i j, ¬ Race msgExec.tr i j :=
+  discipline_sound msgTable msgPol [] (by decide) msgExec
+end demoMsg
 
 end Shk.C14
